@@ -1,5 +1,9 @@
 //@ props: C14
 //@ target: src/ops/stream.rs
+//@ thorough-subst: [u8; 2] ==> [u8; 4]
+//@ thorough-subst: kani::assume(n <= 2) ==> kani::assume(n <= 4)
+//@ thorough-subst: kani::unwind(5) ==> kani::unwind(7)
+//@ thorough-note: at most 4 items
 // to_stream, consuming side — src/ops/stream.rs ObservableStream::poll_next over the REAL
 // futures-rs unbounded channel (Pin, RefCell, ready!: outside Verus)
 use crate::verif_probe::*;
